@@ -5536,6 +5536,9 @@ bool SoPlexBase<R>::computeBasisInverseRational()
    if(_rationalLUSolver.status() == SLinSolverRational::OK)
       return true;
 
+   // a factorization that failed (singular basis, time limit) is not kept: this object holds either none or a usable one
+   _rationalLUSolver.clear();
+
    return false;
 }
 
